@@ -35,8 +35,20 @@ type FEv struct {
 }
 
 type FSchedCase struct {
-	Kind   string `json:"kind"` // "fsched"
-	Events []FEv  `json:"events"`
+	Kind string `json:"kind"` // "fsched"
+	// Names (hex): the schema names the request loops ask for, thread t uses Names[t % len]; empty = ["s"].
+	// With two look-alike names (s / S, "s" / "s ", ...) both configured with their own limits, any
+	// normalisation of the limiter map's keys makes the two share one counter: model and code then differ and
+	// the per-limiter bound is judged with the limit of the name the request asked for.
+	Names  []string `json:"names,omitempty"`
+	Events []FEv    `json:"events"`
+}
+
+func (s FSchedCase) nameOf(t int) string {
+	if len(s.Names) == 0 {
+		return "s"
+	}
+	return rig.UnHex(s.Names[t%len(s.Names)])
 }
 
 type FStepObs struct {
@@ -81,7 +93,8 @@ func counterOf(fc flowcontrol.FlowControl) (maxinflight.TokenBucket, bool) {
 }
 
 type fschedResult struct {
-	stale int // admissions by a limiter object that was no longer the one handed out (looked up before a type change)
+	foreign bool
+	stale   int // admissions by a limiter object that was no longer the one handed out (looked up before a type change)
 	steps []FStepObs
 	viol  string
 	leak  string
@@ -135,7 +148,7 @@ func runImplFSched(s FSchedCase) (res fschedResult) {
 				hook("Lookup")
 				var fc flowcontrol.FlowControl
 				msg, panicked := rig.Recover(func() {
-					fc = lim.GetOrDefault("s")
+					fc = lim.GetOrDefault(s.nameOf(t))
 					holding[t] = fc // only one managed goroutine runs at a time
 					if fc.TryAcquire() {
 						w.msgs <- "ret:admitted"
@@ -155,11 +168,11 @@ func runImplFSched(s FSchedCase) (res fschedResult) {
 		at[t] = l
 		return ok
 	}
-	curState := func() (int64, uint32) {
+	curState := func(name string) (int64, uint32) {
 		var cnt int64 = -1
 		var mx uint32
 		rig.Recover(func() {
-			if tb, ok := counterOf(lim.GetOrDefault("s")); ok {
+			if tb, ok := counterOf(lim.GetOrDefault(name)); ok {
 				cnt, mx, _ = maxinflight.VerifState(tb)
 			}
 		})
@@ -167,6 +180,15 @@ func runImplFSched(s FSchedCase) (res fschedResult) {
 	}
 	inflight := map[maxinflight.TokenBucket]int{}
 	loaded := map[int]uint32{}
+	// every max-in-flight limit ever configured under a name: the limit a request loads must be one of its own name's
+	limitsOf := map[string]map[uint32]bool{}
+	noteLoad := func(k, t int, mx uint32) {
+		loaded[t] = mx
+		if n := s.nameOf(t); !limitsOf[n][mx] && res.viol == "" {
+			res.viol = fmt.Sprintf("event %d: thread %d asked for schema %q and is limited by %d, a limit never configured for that schema", k, t, n, mx)
+			res.foreign = true
+		}
+	}
 	seen := map[maxinflight.TokenBucket]bool{}
 	account := func(k int, t int, ret string) {
 		for _, r := range strings.Split(ret, "+") {
@@ -177,7 +199,7 @@ func runImplFSched(s FSchedCase) (res fschedResult) {
 			seen[tb] = true
 			switch r {
 			case "admitted":
-				if cur, ok := counterOf(lim.GetOrDefault("s")); !ok || cur != tb {
+				if cur, ok := counterOf(lim.GetOrDefault(s.nameOf(t))); !ok || cur != tb {
 					res.stale++
 				}
 				inflight[tb]++
@@ -195,13 +217,20 @@ func runImplFSched(s FSchedCase) (res fschedResult) {
 			var spec proxyv1alpha1.FlowControl
 			for _, sc := range *ev.Sync {
 				spec.Schemas = append(spec.Schemas, sc.real())
+				if sc.Mi != nil {
+					n := rig.UnHex(sc.Name)
+					if limitsOf[n] == nil {
+						limitsOf[n] = map[uint32]bool{}
+					}
+					limitsOf[n][uint32(*sc.Mi)] = true
+				}
 			}
 			msg, panicked := rig.Recover(func() { lim.Sync(spec) })
 			if panicked {
 				res.steps = append(res.steps, FStepObs{Out: "panic", Msg: msg})
 				return
 			}
-			cnt, mx := curState()
+			cnt, mx := curState(s.nameOf(0))
 			res.steps = append(res.steps, FStepObs{Out: "none", Count: cnt, Max: mx})
 			continue
 		}
@@ -216,7 +245,7 @@ func runImplFSched(s FSchedCase) (res fschedResult) {
 		if at[ev.T] == "TryAcquire.1" {
 			if tb, ok := counterOf(holding[ev.T]); ok {
 				_, mx, _ := maxinflight.VerifState(tb)
-				loaded[ev.T] = mx
+				noteLoad(k, ev.T, mx)
 			}
 		}
 		ctl.current = w
@@ -237,7 +266,7 @@ func runImplFSched(s FSchedCase) (res fschedResult) {
 		if ret == "" {
 			ret = "none"
 		}
-		cnt, mx := curState()
+		cnt, mx := curState(s.nameOf(ev.T))
 		res.steps = append(res.steps, FStepObs{At: l, Out: ret, Count: cnt, Max: mx})
 	}
 	// drain: every thread back to its next lookup, in thread order; then no limiter object holds a slot
@@ -252,7 +281,7 @@ func runImplFSched(s FSchedCase) (res fschedResult) {
 			if at[t] == "TryAcquire.1" {
 				if tb, ok := counterOf(holding[t]); ok {
 					_, mx, _ := maxinflight.VerifState(tb)
-					loaded[t] = mx
+					noteLoad(len(s.Events), t, mx)
 				}
 			}
 			ctl.current = w
@@ -301,6 +330,9 @@ func runFSched(c *rig.Ctx, s FSchedCase, record bool) bool {
 	if !record && res.stale > 0 {
 		c.Count("fsched-reached:admission-by-retired-limiter")
 	}
+	if res.viol != "" && res.foreign {
+		return fail("judge", "c05.fsched-foreign-limit", res.viol, res.steps, nil)
+	}
 	if res.viol != "" {
 		return fail("judge", "c05.fsched-over-admission", res.viol, res.steps, nil)
 	}
@@ -319,7 +351,11 @@ func runFSched(c *rig.Ctx, s FSchedCase, record bool) bool {
 			evs[i] = map[string]interface{}{"t": e.T}
 		}
 	}
-	if err := c.Model("C05.full", map[string]interface{}{"events": evs}, &m); err != nil {
+	names := s.Names
+	if names == nil {
+		names = []string{}
+	}
+	if err := c.Model("C05.full", map[string]interface{}{"events": evs, "names": names}, &m); err != nil {
 		if _, isModelErr := err.(*rig.ModelErr); isModelErr {
 			return fail("diff", "c05.model-error", "model error: "+err.Error(), nil, nil)
 		}
@@ -349,8 +385,8 @@ func shrinkFSched(c *rig.Ctx, s FSchedCase) FSchedCase {
 	return s
 }
 
-func fschedSchemas(c *rig.Ctx, kind int) *[]Schema {
-	s := Schema{Name: rig.Hex("s"), Strategy: rig.Hex("")}
+func fschedSchema(c *rig.Ctx, name string, kind int) *Schema {
+	s := Schema{Name: rig.Hex(name), Strategy: rig.Hex("")}
 	switch kind {
 	case 0: // max-in-flight
 		s.Mi = i32(int32(c.Rng.Intn(4)))
@@ -359,26 +395,55 @@ func fschedSchemas(c *rig.Ctx, kind int) *[]Schema {
 	case 2:
 		s.Exempt = true
 	default: // deleted
-		return &[]Schema{}
+		return nil
 	}
-	return &[]Schema{s}
+	return &s
 }
+
+var fschedAlikes = []string{"S", "s ", " s", "s\x00", "\u017f", "ss", ""}
 
 func genFSchedCase(c *rig.Ctx) FSchedCase {
 	s := FSchedCase{Kind: "fsched"}
+	names := []string{"s"}
+	if c.Rng.Intn(2) == 0 {
+		// two look-alike names, each with its own schema
+		names = append(names, rig.Pick(c.Rng, fschedAlikes))
+		s.Names = rig.HexList(names)
+	}
+	cfg := map[string]*Schema{}
+	emit := func() {
+		list := []Schema{}
+		for _, n := range names {
+			if cfg[n] != nil {
+				list = append(list, *cfg[n])
+			}
+		}
+		if len(list) > 1 && c.Rng.Intn(2) == 0 {
+			list[0], list[1] = list[1], list[0]
+		}
+		s.Events = append(s.Events, FEv{Sync: &list})
+	}
 	if c.Rng.Intn(10) > 0 {
-		s.Events = append(s.Events, FEv{Sync: fschedSchemas(c, 0)})
+		for _, n := range names {
+			if n != "" {
+				cfg[n] = fschedSchema(c, n, 0)
+			}
+		}
+		emit()
 	}
 	threads := 2 + c.Rng.Intn(3)
 	n := 10 + c.Rng.Intn(70)
 	cur := c.Rng.Intn(threads)
 	stick := 1 + c.Rng.Intn(5)
 	for len(s.Events) < n {
+		name := rig.Pick(c.Rng, names)
 		switch r := c.Rng.Intn(100); {
-		case r < 7: // resize (or re-add / back to max-in-flight)
-			s.Events = append(s.Events, FEv{Sync: fschedSchemas(c, 0)})
-		case r < 11: // type change or deletion
-			s.Events = append(s.Events, FEv{Sync: fschedSchemas(c, 1+c.Rng.Intn(3))})
+		case r < 7 && name != "": // resize (or re-add / back to max-in-flight)
+			cfg[name] = fschedSchema(c, name, 0)
+			emit()
+		case r < 11 && name != "": // type change or deletion
+			cfg[name] = fschedSchema(c, name, 1+c.Rng.Intn(3))
+			emit()
 		default:
 			if c.Rng.Intn(stick+1) == 0 {
 				cur = c.Rng.Intn(threads)
@@ -397,16 +462,20 @@ func genFSched(c *rig.Ctx) {
 		for _, e := range s.Events {
 			if e.Sync != nil {
 				syncs++
-				if len(*e.Sync) == 0 {
+				if len(*e.Sync) < len(s.Names) || len(*e.Sync) == 0 {
 					kinds["delete"] = true
-				} else {
-					kinds[(*e.Sync)[0].guess()] = true
+				}
+				for _, sc := range *e.Sync {
+					kinds[sc.guess()] = true
 				}
 			}
 		}
 		b := "fsched:resizes-only"
 		if kinds["tb"] || kinds["exempt"] || kinds["delete"] {
 			b = "fsched:type-changes"
+		}
+		if len(s.Names) > 1 {
+			b += ",look-alike-names"
 		}
 		c.Case(rig.Canon(s), syncs > 1, b, func() interface{} { return s })
 		c.Trace()
